@@ -43,6 +43,7 @@ class SysCase:
     inputs: list               # [(v, period_token, [values])]
     reqs: list                 # [("calc"|"add", v, token) | ("arm"|"disarm", id)]
     config: dict = field(default_factory=dict)   # trace, memory, priority, drop, blacklist ... (implementation side only)
+    roles: list = field(default_factory=list)    # role index of each person in its household (empty = everybody role 0); see ROLES
 
 
 def expr_tokens(e) -> list:
@@ -61,7 +62,10 @@ def expr_tokens(e) -> list:
 
 
 def to_line(c: SysCase, no_store_override=None) -> str:
-    t = ["sim", "P", str(c.nP), "G", str(c.nG), "M"] + [str(m) for m in c.mem] + ["MSL", str(c.msl), "V", str(len(c.vars))]
+    roles = list(getattr(c, "roles", None) or [])
+    t = (["sim", "P", str(c.nP), "G", str(c.nG), "M"] + [str(m) for m in c.mem]
+         + (["RL"] + [str(r) for r in roles] if roles else [])          # optional field: absent = everybody role 0
+         + ["MSL", str(c.msl), "V", str(len(c.vars))])
     for i, v in enumerate(c.vars):
         ns = v.no_store if no_store_override is None else no_store_override(i, v)
         t += [str(v.entity), v.vtype, v.unit, str(v.dflt), "1" if v.neutralized else "0",
@@ -115,11 +119,39 @@ def _to_int_array(x):
     return x.astype(np.int64)
 
 
+# roles of the household entity, by index: 0 plain member (no maximum), 1 parent (at most 2), 2 head (unique)
+ROLES = [{"key": "member", "plural": "members"}, {"key": "parent", "plural": "parents", "max": 2},
+         {"key": "head", "plural": "heads", "max": 1}]
+UNIQUE_ROLE = 2
+
+
+def is_role_op(o: int) -> bool:
+    """role operations: 10+r sum(x, role), 20+r value_from_person(x, role), 30+r nb_persons(role), 40+r any(x, role)"""
+    return 10 <= o < 50
+
+
+def _role_op(o, x, grp):
+    """`grp`: the household population, or (person formula) the projector `person.household`, whose
+    results are projected back onto the persons"""
+    role = grp.entity.roles[o % 10]
+    if o < 20:
+        return grp.sum(x, role=role)
+    if o < 30:
+        return grp.value_from_person(x, role)            # raises unless the role is unique
+    if o < 40:
+        return grp.nb_persons(role=role)
+    return np.where(grp.any(x, role=role), 1, 0)
+
+
 def _f1(o, x, pop, E):
     if o == 0:
         return -x
     if o == 1:
-        return pop.sum(x)
+        return (pop if E == 1 else pop.simulation.household).sum(x)
+    if is_role_op(o):
+        # in a person formula `pop.household` is a projector (its results come back projected onto persons):
+        # the household population itself is taken from the simulation
+        return _role_op(o, x, pop if E == 1 else pop.simulation.household)
     if o == 2:
         return pop.project(x) if E == 1 else pop.household.project(x)
     if o == 3:
@@ -193,7 +225,15 @@ def _compile(e, E: int, ent: int, ctx: _Ctx):
                 kw = {"options": [ADD]} if add else {}
                 return _to_int_array(pop.household(name, q, **kw))
             return f
-        inner_ent = 0 if o == 1 else (1 if o == 2 else ent)
+        if o == 2 and E == 0 and ent == 0 and a[0] == "o1" and is_role_op(a[1]):
+            # person.household.<role operation>(...): the projector chain does the projection itself
+            ro = a[1]
+            fx = _compile(a[2], E, 0, ctx)
+
+            def f(pop, period, ro=ro, fx=fx):
+                return _to_int_array(np.asarray(_role_op(ro, fx(pop, period), pop.household)))
+            return f
+        inner_ent = 0 if (o == 1 or is_role_op(o)) else (1 if o == 2 else ent)
         fa = _compile(a, E, inner_ent, ctx)
 
         def f(pop, period, o=o, fa=fa):
@@ -231,7 +271,7 @@ def build_system(case: SysCase, ctx: _Ctx | None = None):
     from openfisca_core.periods import DateUnit
     ctx = ctx or _Ctx(case)
     person = entities.Entity("person", "persons", "", "")
-    household = entities.GroupEntity("household", "households", "", "", roles=[{"key": "member", "plural": "members"}])
+    household = entities.GroupEntity("household", "households", "", "", roles=[dict(r) for r in ROLES])
     tbs = taxbenefitsystems.TaxBenefitSystem([person, household])
     E5 = Enum("E5", {f"m{i}": f"m{i}" for i in range(ENUM_SIZE)})
     vt = {"int": int, "float": float, "bool": bool, "enum": Enum, "date": dt.date, "str": str}
@@ -284,8 +324,8 @@ def build_simulation(case: SysCase, tbs, E5, configure=None):
     H.count = case.nG
     H.ids = [f"h{j}" for j in range(case.nG)]
     H.members_entity_id = np.array(case.mem, dtype=np.int64)
-    role = H.entity.roles[0]
-    H.members_role = np.array([role] * case.nP, dtype=object)
+    roles = list(getattr(case, "roles", None) or [0] * case.nP)
+    H.members_role = np.array([H.entity.roles[r] for r in roles], dtype=object)
     sim.max_spiral_loops = case.msl
     if configure:
         configure(sim)
